@@ -689,7 +689,17 @@ def handle (ts : Toks) : String :=
     | "ring" => handleRing inp out
     | "split" => handleSplit inp out
     | "geom" => handleGeom inp out
-    | "layer" => handleLayer inp out
+    -- `layer <box> [E<Extent>v<Version>] ...`: the receiver's other fields are part of the case (an optional
+    -- fifth token); the statement and the model do not depend on them: Layer.Clip clips every feature
+    -- whatever the Extent says
+    | "layer" => handleLayer (match inp.drop 4 with
+      | t :: tl => if t.startsWith "E" then inp.take 4 ++ tl else inp
+      | [] => inp) out
+    -- reach self-test of the generator (harness/clipreach.go): the number of cases of the corner-shot
+    -- family on which a replica of clip.line's loop takes the `clips == 2` (clampToBound) arm
+    | "reach" => (match inp with
+      | [n] => if n == "0" then "bad reach-gate clamp-arm-unreached" else "ok reach-clamp"
+      | _ => "bad reach")
     | _ => "bad op " ++ op
   | [] => "bad empty"
 
